@@ -4,7 +4,7 @@ Generator + independent oracle.  The oracle is written from the property stateme
 arithmetic over the rate table of /repo/src/json/config.json (as modified by the update requests of the
 history), `conv(a, A, B) = a * rate(B) / rate(A)`; a name is known iff it is a configured alias or the
 code of a configured currency (any letter case)."""
-import json
+import json, re, unicodedata
 from fractions import Fraction
 from .common import *
 
@@ -32,7 +32,8 @@ def load_tables():
     rates = {cur[k.lower()]["code"]: Fraction(repr(float(v))) for k, v in cfg["currency_rates"].items() if k.lower() in cur}
     alias = {k: cur[v.lower()]["code"] for k, v in cfg["currency_alias"].items() if v.lower() in cur}
     words = cfg["languages"]["en"]["word_group"]["conversion_group"]
-    return cur, rates, alias, words
+    tz = {k.upper() for k in cfg["timezones"]}
+    return cur, rates, alias, words, tz
 
 
 def resolve(name, cur, alias):
@@ -63,13 +64,26 @@ def mixed(rng, w):
 class Gen:
     def __init__(self, rng):
         self.rng = rng
-        self.cur, self.rates, self.alias, self.words = load_tables()
+        self.cur, self.rates, self.alias, self.words, tz = load_tables()
         self.codes = sorted(self.rates)
         self.all_codes = sorted(v["code"] for v in self.cur.values())
+        # KNOWN FINDING C06-K4 (class C06-code-is-timezone): currency codes that are also time-zone abbreviations (TMT, WST).  As a word after
+        # a suffixed amount (`25k tmt`) or as a conversion target (`1 inr in wst`, once WST has a rate) the word
+        # lexes as a time zone and the line ends in the error "No more token".  They are generated only in the
+        # plain literal forms `25 tmt`, `25tmt`, and never receive a rate in the histories.
+        self.tz_codes = {c for c in self.all_codes if c.upper() in tz}
+        # KNOWN FINDINGS (known_findings.json C06-K1..K4): a few cases of each mechanism are generated per run by
+        # known_cases() WITH the statement's expectation and classified by known_class(); elsewhere they are avoided.
+        self.foreign_symbols = {}          # one-character Unicode currency symbols of the table that are no alias
+        for v in self.cur.values():
+            sy = v["symbol"]
+            if len(sy) == 1 and unicodedata.category(sy) == "Sc" and sy not in self.alias:
+                self.foreign_symbols.setdefault(sy, []).append(v["code"])
+        self.nonlatin_aliases = {a: c for a, c in self.alias.items() if a.isalpha() and not a.isascii()}
         # names by currency: code spellings + aliases (letters) / symbols (aliases that are not letters).
-        # NOTE (reported, not generated): an alias that is neither ASCII letters nor a Unicode currency symbol
+        # KNOWN FINDINGS C06-K3 / C06-K2: an alias that is neither ASCII letters nor a Unicode currency symbol
         # (the Cyrillic BGN alias) and the symbols of currencies that are not aliases (GBP, JPY, ...) never
-        # lex as a money literal in the crate: `10 <that alias>`, `<that symbol>10` evaluate to the number 10.
+        # lex as a money literal in the crate: `10 <that alias>` is the number 10, `<that symbol>10` the number 0.
         self.names = {}
         self.symbols = {}
         for a, code in self.alias.items():
@@ -92,8 +106,8 @@ class Gen:
         rng = self.rng
         return rng.choice(AMOUNTS) if rng.random() < 0.7 else round(rng.uniform(0, 100000), rng.randint(0, 2))
 
-    def money_lit(self, code, amt=None, allow_sign=True):
-        """(text, value) of a money literal of currency `code`"""
+    def money_lit(self, code, amt=None, allow_sign=True, alone=False):
+        """(text, value) of a money literal of currency `code`; `alone`: nothing follows the literal"""
         rng = self.rng
         a = self.amount() if amt is None else amt
         v = Fraction(repr(float(a)))
@@ -104,7 +118,7 @@ class Gen:
             if sign == "-":
                 v = -v
         sfx, mult = "", 1
-        if rng.random() < 0.2:
+        if rng.random() < 0.2 and code not in self.tz_codes:
             sfx = rng.choice(list(SUFFIX))
             mult = SUFFIX[sfx]
         v *= mult
@@ -112,7 +126,9 @@ class Gen:
         k = rng.random()
         if syms and k < 0.3:
             return rng.choice(syms) + sign + s + sfx, v                       # symbol before, optional suffix
-        if syms and k < 0.45:
+        # KNOWN FINDING C06-K1 (class C06-suffix-symbol-drops-rest): `<amount><suffix> <symbol>` followed by anything: the rest of the line is silently
+        # dropped (`1k $ * 2` = $1.000,00, `1M € + 5cny` = €1.000.000,00); generated only when nothing follows.
+        if syms and k < 0.45 and (alone or not sfx):
             sym = rng.choice(syms)
             if sfx:
                 return sign + s + sfx + " " * rng.randint(1, 2) + sym, v      # suffix form needs a blank
@@ -141,7 +157,7 @@ class Gen:
             return text, self.expect("Money", b, self.conv(table, v, a, b), scale=abs(v))
         if kind == "literal":
             code = rng.choice(self.all_codes) if rng.random() < 0.5 else a
-            lit, v = self.money_lit(code)
+            lit, v = self.money_lit(code, alone=True)
             return lit, self.expect("Money", code, v)
         if kind == "addsub":
             l1, v1 = self.money_lit(a)
@@ -203,7 +219,7 @@ class Gen:
             a = rng.choice(sorted(self.alias))
             return a if rng.random() < 0.7 else a.upper()
         if k < 0.8:
-            c = rng.choice(self.all_codes)                     # possibly a currency that has no rate yet
+            c = rng.choice([x for x in self.all_codes if x not in self.tz_codes])   # possibly without a rate yet
             return rng.choice([c, c.lower()])
         return rng.choice(UNKNOWN)
 
@@ -226,6 +242,64 @@ class Gen:
                 ops.append({"op": "exec", "lang": "en", "text": text})
                 steps.append(e)
         return {"ops": ops, "meta": {"kind": "update-history", "steps": steps}}
+
+    def known_cases(self):
+        """a few cases of each recorded mechanism, with the expectation of the statement"""
+        rng = self.rng
+        out = []
+
+        def add(cls, ops, steps):
+            out.append({"ops": ops, "meta": {"kind": "known-class", "cls": cls, "steps": steps}})
+
+        def ex(text):
+            return {"op": "exec", "lang": "en", "text": text}
+        # K1: amount + suffix + blank(s) + configured symbol, then an operator / a conversion
+        syms = sorted((sy, c) for c, l in self.symbols.items() for sy in l if c in self.rates)
+        for _ in range(4):
+            sy, code = rng.choice(syms)
+            n, sfx = rng.choice([1, 2, 5, 12.5, 250]), rng.choice(list(SUFFIX))
+            v = Fraction(repr(float(n))) * SUFFIX[sfx]
+            lit = fmt_dec(n) + sfx + " " * rng.randint(1, 2) + sy
+            k = rng.randrange(3)
+            if k == 0:
+                w = rng.choice([2, 3, 4, 10])
+                op = rng.choice("*/")
+                add("C06-suffix-symbol-drops-rest", [ex("%s %s %d" % (lit, op, w))],
+                    [self.expect("Money", code, v * w if op == "*" else v / w, scale=abs(v))])
+            elif k == 1:
+                b = rng.choice(self.codes)
+                m = rng.choice([5, 100, 1000])
+                c2 = self.conv(self.rates, Fraction(m), b, code)
+                add("C06-suffix-symbol-drops-rest", [ex("%s + %d%s" % (lit, m, b.lower()))],
+                    [self.expect("Money", code, v + c2, scale=max(abs(v), abs(c2)))])
+            else:
+                b = rng.choice([c for c in self.codes if c != code])
+                add("C06-suffix-symbol-drops-rest", [ex("%s %s %s" % (lit, rng.choice(self.words), b.lower()))],
+                    [self.expect("Money", b, self.conv(self.rates, v, code, b), scale=abs(v))])
+        # K2: a currency symbol of the table that is not an alias, before / after the amount
+        for sy in rng.sample(sorted(self.foreign_symbols), min(3, len(self.foreign_symbols))):
+            n = rng.choice([5, 10, 12.5, 250])
+            text = rng.choice([sy + fmt_dec(n), fmt_dec(n) + sy, fmt_dec(n) + " " + sy])
+            e = self.expect("Money", None, Fraction(repr(float(n))))
+            e["cur_any"] = sorted(self.foreign_symbols[sy])
+            add("C06-symbol-not-alias", [ex(text)], [e])
+        # K3: an alias written in non-Latin letters after the amount
+        for al, code in sorted(self.nonlatin_aliases.items()):
+            for text in (["10 " + al, "25" + al] if len(self.nonlatin_aliases) < 3 else ["10 " + al]):
+                add("C06-nonlatin-alias", [ex(text)], [self.expect("Money", code, Fraction(int(text[:2])))])
+        # K4: a code that is also a time-zone abbreviation: after a suffixed amount, and as a conversion target
+        for code in sorted(self.tz_codes):
+            n, sfx = rng.choice([1, 25, 3]), rng.choice(list(SUFFIX))
+            name = rng.choice([code.lower(), code.upper()])
+            add("C06-code-is-timezone", [ex("%d%s %s" % (n, sfx, name))],
+                [self.expect("Money", code, Fraction(n) * SUFFIX[sfx])])
+            a = rng.choice(self.codes)
+            add("C06-code-is-timezone",
+                [{"op": "update_currency", "cur": code.lower(), "rate": str(bits(2.0))}, ex("25 " + name),
+                 ex("10 %s %s %s" % (a.lower(), rng.choice(self.words), name))],
+                [{"ret": True}, self.expect("Money", code, Fraction(25)),
+                 self.expect("Money", code, Fraction(10) / self.rates[a] * 2, scale=Fraction(10))])
+        return out
 
     def single(self, kind=None, text_e=None):
         text, e = text_e or self.evaluation(self.rates, kind)
@@ -251,7 +325,7 @@ def generate(rng, tier):
         for j, (form, mult) in enumerate(forms if not quick else [forms[i % len(forms)]]):
             amt = AMOUNTS[(i + j) % len(AMOUNTS)]
             name = [code.lower(), code.upper(), mixed(rng, code)][(i + j) % 3]
-            if resolve(name, g.cur, g.alias) != code:
+            if resolve(name, g.cur, g.alias) != code or (code in g.tz_codes and mult in (1000, 1000000)):
                 continue
             text = form % (fmt_dec(amt), name)
             cases.append(g.single("spelling", (text, g.expect("Money", code, Fraction(repr(float(amt))) * mult))))
@@ -264,6 +338,11 @@ def generate(rng, tier):
             for text, v in ((al + "25", 25), ("25" + al, 25), ("25 " + al, 25), (al + "3k", 3000), ("3M " + al, 3000000),
                             (al + "1.250,5", Fraction(2501, 2))):
                 cases.append(g.single("symbol", (text, g.expect("Money", code, Fraction(v)))))
+    # the recorded findings: a few cases of each mechanism, with the statement's expectation (see known_class)
+    cases.extend(g.known_cases())
+    # neighbours of the literal forms the statement does not promise: under the correspondence check only
+    for text in ["1 usd to tmt", "10 usd to лв", "$ 10", "usd 10", "10kusd"]:
+        cases.append(g.single("limit", (text, {"typ": "Money", "cur": None})))
     while len(cases) < n:
         if rng.random() < 0.45:
             cases.append(g.history())
@@ -289,8 +368,8 @@ def check_value(line, st):
     k, v = line_value(line)
     if k != "item" or v["t"] != st["typ"]:
         return "expected %s, got %s %r" % (st["typ"], k, v)
-    if st["typ"] == "Money" and v["cur"] != st["cur"]:
-        return "expected currency %s, got %s" % (st["cur"], v["cur"])
+    if st["typ"] == "Money" and v["cur"] not in (st.get("cur_any") or [st["cur"]]):
+        return "expected currency %s, got %s" % (st.get("cur_any") or st["cur"], v["cur"])
     exp = Fraction(st["expect"][0], st["expect"][1])
     got = from_bits(v["v"])
     if not close(got, exp, Fraction(st["scale"][0], st["scale"][1])):
@@ -329,9 +408,59 @@ def spec_check(c, rec, header):
     return None
 
 
+AMT = r"[-+]?[0-9][0-9.,]*"
+
+
 def known_class(c, rec, verdict, known):
-    return None
+    """narrow syntactic predicates, one per recorded class, on the text of the failing operation of a case the
+    generator tagged with that class; anything else stays a violation"""
+    m = c["meta"]
+    ids = {f["class"] for f in known}
+    cls = m.get("cls")
+    if m.get("kind") != "known-class" or cls not in ids:
+        return None
+    mo = re.match(r"operation (\d+):", verdict or "")
+    if not mo:
+        return None
+    op = c["ops"][int(mo.group(1))]
+    if op.get("op") != "exec" or op.get("lang") != "en":
+        return None
+    text = op["text"]
+    cur, rates, alias, words, tz = load_tables()
+    symbols = [re.escape(a) for a in alias if len(a) == 1 and not a.isalnum()]
+    tzcodes = [v["code"] for v in cur.values() if v["code"].upper() in tz]
+    conv_words = "|".join(re.escape(w) for w in words)
+    if cls == "C06-suffix-symbol-drops-rest":
+        # amount, suffix, blank(s), configured symbol, blank, then something more
+        ok = re.fullmatch(AMT + r"[kKM] +(%s) +\S.*" % "|".join(symbols), text)
+    elif cls == "C06-symbol-not-alias":
+        # the whole line is one literal whose symbol is a Unicode currency symbol that is no alias
+        mo = re.fullmatch(r"(?:(\S)" + AMT + "|" + AMT + r" ?(\S))", text)
+        sy = mo and (mo.group(1) or mo.group(2))
+        ok = bool(sy) and unicodedata.category(sy) == "Sc" and sy not in alias
+    elif cls == "C06-nonlatin-alias":
+        # the whole line is amount + alias, the alias being letters outside ASCII
+        mo = re.fullmatch(AMT + r" ?(\S+)", text)
+        ok = bool(mo) and mo.group(1).lower() in alias and mo.group(1).isalpha() and not mo.group(1).isascii()
+    elif cls == "C06-code-is-timezone":
+        # a code that is also a time-zone name: after a suffixed amount, or as the target of a conversion
+        codes = "|".join(tzcodes)
+        ok = bool(tzcodes) and (re.fullmatch(AMT + r"[kKM] +(%s)" % codes, text, re.I) or
+                                re.fullmatch(AMT + r" ?[a-zA-Z]{2,} (%s) (%s)" % (conv_words, codes), text, re.I))
+    else:
+        ok = False
+    return cls if ok else None
 
 
 def witness_fails(f, wc, rec, header):
+    """the recorded witness still shows the recorded wrong answer"""
+    lines = last_lines(rec)
+    w = f["observed"]
+    if lines is None or not lines:
+        return False
+    k, v = line_value(lines[-1])
+    if "err" in w:
+        return k == "err" and v == w["err"]
+    if "out" in w:
+        return lines[-1] is not None and lines[-1].get("out") == w["out"]
     return False
